@@ -11,9 +11,9 @@
    RdErr k = an I/O error; an exhausted schedule = end of file for ever); the
    result is (items, number of reads, bytes the reader still holds).
    [oks items] = the successfully decoded payloads, in order. *)
-From Compio.Model Require Import Base Frame Cmsg.
+From Compio.Model Require Import Base Frame Cmsg RecvMsgOut.
 From Compio.Model Require IoHelpers.
-From Compio.Thm Require Import FrameThm CmsgThm.
+From Compio.Thm Require Import FrameThm CmsgThm RecvMsgOutThm.
 
 (* ---------------------------------------------------------------------- *)
 (* round trip                                                               *)
@@ -234,6 +234,89 @@ Theorem C13_cmsg_bounds : forall cap ms st bytes wants dw items,
   Forall (fun it => ci_off it + nn (ci_slen it) <= length bytes) items.
 Proof. exact cmsg_bounds. Qed.
 Print Assumptions C13_cmsg_bounds.
+
+(* ---------------------------------------------------------------------- *)
+(* the result buffer of a multishot RECVMSG (model/RecvMsgOut.v)            *)
+
+(* Vocabulary: [kernel_fill old clen name ctl payload flags want_trunc] = the
+   initialised part of a pool buffer whose previous content was [old], after
+   the kernel received a datagram into it with a control reservation of [clen]
+   bytes: header, name area (NLEN = 128 reserved), control area (clen reserved),
+   payload (cut to the room left); the reserved parts beyond the name / control
+   data keep the bytes of [old].  rm_new / rm_data / rm_ancillary / rm_addr /
+   rm_flags = RecvMsgMultiResult::{new, data, ancillary, addr, flags}.       *)
+
+(* For EVERY previous content of the buffer, every reservation, address,
+   control data that fits it and payload: the constructor accepts the buffer,
+   and the slices are exact — ancillary() is the controllen bytes the kernel
+   wrote (not the reservation, none of the stale bytes), data() the stored
+   payload, addr() the address, flags() carries MSG_TRUNC iff the payload was
+   cut (with or without MSG_TRUNC among the receive flags). *)
+Theorem C13_recvmsg_roundtrip : forall old clen name ctl payload flags want_trunc,
+  length name <= NLEN -> length ctl <= clen -> OUT_HDR + NLEN + clen <= length old ->
+  u32 (NN clen) -> u32 (NN (length payload)) -> u32 flags ->
+  let buf := kernel_fill old clen name ctl payload flags want_trunc in
+  let stored := firstn (payload_space old clen) payload in
+  rm_new buf clen = Ok tt /\
+  rm_data buf clen = Ok (OUT_HDR + NLEN + clen, stored) /\
+  rm_ancillary buf = Ok (OUT_HDR + NLEN, ctl) /\
+  rm_addr buf = match name with [] => ANone | _ => ASome name end /\
+  rm_flags buf = (if Nat.ltb (length stored) (length payload) then N.lor flags MSG_TRUNC else flags).
+Proof. exact kernel_roundtrip. Qed.
+Print Assumptions C13_recvmsg_roundtrip.
+
+(* ... and AncillaryIter over that slice yields exactly the control messages
+   the kernel laid out, whatever the reused buffer held before *)
+Theorem C13_recvmsg_cmsgs : forall old clen name ms ctl payload flags want_trunc wants dw,
+  layout ms ctl -> Forall msg_ok ms -> ms <> [] ->
+  length name <= NLEN -> length ctl <= clen -> OUT_HDR + NLEN + clen <= length old ->
+  u32 (NN clen) -> u32 (NN (length payload)) -> u32 flags ->
+  exists anc items,
+    rm_ancillary (kernel_fill old clen name ctl payload flags want_trunc) = Ok (OUT_HDR + NLEN, anc) /\
+    length anc = length ctl /\
+    iterate anc wants dw = Ok items /\ map (item_msg anc) items = ms.
+Proof. exact kernel_cmsgs. Qed.
+Print Assumptions C13_recvmsg_cmsgs.
+
+(* EVERY byte string the constructor accepts: data() is in bounds and never
+   panics; ancillary() is either a slice of exactly controllen bytes inside
+   the buffer or a slice-index panic (never an out-of-bounds access), and no
+   panic at all when controllen <= the reservation; addr() reads inside the
+   buffer and fits sockaddr_storage whenever it returns bytes *)
+Theorem C13_recvmsg_bounds : forall buf clen,
+  rm_new buf clen = Ok tt ->
+  (exists d, rm_data buf clen = Ok (OUT_HDR + NLEN + clen, d) /\
+             OUT_HDR + NLEN + clen + length d = length buf) /\
+  (rm_ancillary buf = Panic P_SLICE_INDEX \/
+   exists a, rm_ancillary buf = Ok (OUT_HDR + NLEN, a) /\
+             NN (length a) = oh_controllen (parse_hdr buf) /\
+             OUT_HDR + NLEN + length a <= length buf) /\
+  ((oh_controllen (parse_hdr buf) <= NN clen)%N -> exists a, rm_ancillary buf = Ok (OUT_HDR + NLEN, a)) /\
+  (forall bs, rm_addr buf = ASome bs -> OUT_HDR + length bs <= length buf /\ length bs <= NLEN).
+Proof. exact rm_bounds. Qed.
+Print Assumptions C13_recvmsg_bounds.
+
+(* a reused buffer that still holds a 24-byte control message from an earlier
+   datagram; the new datagram carries none: ancillary() is empty *)
+Example C13_nonvacuous_recvmsg :
+  let old := repeat 0%N (OUT_HDR + NLEN) ++ [20;0;0;0;0;0;0;0; 0;0;0;0; 1;0;0;0; 9;9;9;9; 0;0;0;0]%N
+             ++ repeat 7%N 40 in
+  rm_ancillary (kernel_fill old 24 (repeat 2%N 16) [] [1;2;3]%N 0 false) = Ok (OUT_HDR + NLEN, []) /\
+  rm_data (kernel_fill old 24 (repeat 2%N 16) [] [1;2;3]%N 0 false) 24 = Ok (OUT_HDR + NLEN + 24, [1;2;3]%N).
+Proof. split; vm_compute; reflexivity. Qed.
+Print Assumptions C13_nonvacuous_recvmsg.
+
+(* Fixed (commit 004c7e7): the constructor asserted buffer.len() >= fixed
+   areas + payloadlen.  With MSG_TRUNC among the receive flags payloadlen is
+   the length of the datagram; a 200-byte datagram into a buffer with room for
+   48 made the assertion fail — a panic any peer can cause.  [rm_new_v0] is
+   the old check. *)
+Example C13_fixed_recvmsg_trunc_witness :
+  let buf := kernel_fill (repeat 0%N 256) 64 (repeat 2%N 16) [] (repeat 5%N 200) 0 true in
+  rm_new_v0 buf 64 = Panic P_ASSERT /\ rm_new buf 64 = Ok tt /\
+  rm_data buf 64 = Ok (208, repeat 5%N 48) /\ rm_flags buf = MSG_TRUNC.
+Proof. repeat split; vm_compute; reflexivity. Qed.
+Print Assumptions C13_fixed_recvmsg_trunc_witness.
 
 (* ---------------------------------------------------------------------- *)
 (* non-vacuity                                                              *)
